@@ -1116,3 +1116,17 @@ m('M8-constructed-root-counts-itself-as-leaf', 'C08', 'M8', 'PyTreeSpec::MakeFro
 m('M8-compose-multiplies-by-inner-leaves', 'C08', 'M8', 'PyTreeSpec::Compose/counts', 'src/treespec/treespec.cpp',
   """                (node.num_nodes - node.num_leaves) + (node.num_leaves * num_inner_nodes);""",
   """                (node.num_nodes - node.num_leaves) + (node.num_leaves * num_inner_leaves);""")
+m('T1e-non-string-field-names-accepted', 'C18', 'T1e', 'IsNamedTupleClassImpl/', 'include/optree/pytypes.h',
+  """                        fields_ok = false;""",
+  """                        fields_ok = true;""")
+m('T1e-structseq-probe-result-ignored', 'C18', 'T1e', 'IsStructSequenceClassImpl/', 'include/optree/pytypes.h',
+  """                const bool result = static_cast<bool>(PyLong_CheckExact(attr));
+                Py_DECREF(attr);
+                if (!result) [[unlikely]] {
+                    return false;
+                }""",
+  """                const bool result = static_cast<bool>(PyLong_CheckExact(attr));
+                Py_DECREF(attr);
+                if (!result) [[unlikely]] {
+                    continue;
+                }""")
